@@ -62,15 +62,24 @@ def pruned(it, name, stored):
     return c
 
 
+def depth0(it, c):
+    d = cm.call_method(it, c, 'get_depth', K(0))
+    if not (isinstance(d, K) and isinstance(d.v, int)):
+        raise AnalysisError(f'fixture: level-0 depth of {getattr(c, "tag", "?")} is {vrepr(d)}')
+    return d.v
+
+
 def merkle_proof(it, name, stored, child):
-    ba = BA([Seg(8, 'k', format(3, '08b')), Seg(256, 'b', stored), Seg(16, 'k', format(9, '016b'))])
+    # a well-formed proof cell stores the level-0 depth of the attached tree next to its hash (a parser may check that as well)
+    ba = BA([Seg(8, 'k', format(3, '08b')), Seg(256, 'b', stored), Seg(16, 'k', format(depth0(it, child), '016b'))])
     c = cm.new_cell(it, cm.tvm_bits(it, ba), [child], PROOF)
     c.tag = name
     return c
 
 
 def merkle_update(it, name, old, new, stored_new=None):
-    ba = BA([Seg(8, 'k', format(4, '08b')), Seg(256, 'b', sym32('U_old')), Seg(256, 'b', stored_new if stored_new is not None else sym32('U_new')), Seg(32, 'k', format(0, '032b'))])
+    ba = BA([Seg(8, 'k', format(4, '08b')), Seg(256, 'b', sym32('U_old')), Seg(256, 'b', stored_new if stored_new is not None else sym32('U_new')),
+             Seg(32, 'k', format(depth0(it, old), '016b') + format(depth0(it, new), '016b'))])
     c = cm.new_cell(it, cm.tvm_bits(it, ba), [old, new], UPDATE)
     c.tag = name
     return c
